@@ -1883,7 +1883,13 @@ func (c *Client) CreateShardGroup(database, policy string, timestamp time.Time, 
 	}
 	c.mu.RLock() // ShardGroups of rpi may be changed when some shardgroups are deleted/pruned.
 	defer c.mu.RUnlock()
-	sgi := *(rpi.ShardGroupByTimestampAndEngineType(timestamp, engineType)) // need to make a copy
+	sg = rpi.ShardGroupByTimestampAndEngineType(timestamp, engineType)
+	if sg == nil {
+		// the retention service can delete the group between its creation and this lookup
+		// (the timestamp lies at the edge of the retention window)
+		return nil, errors.New("shard group deleted after it was created")
+	}
+	sgi := *sg // need to make a copy
 
 	return &sgi, nil
 }
